@@ -95,6 +95,8 @@ def gen_args(rng, desc):
 
 def make_case(seed, i, tier='quick'):
     rng = random.Random('fvmon/C17/%s/%s' % (seed, i))
+    if i % 7 == 6:
+        return make_trio_case(rng, seed, i)
     if i % 6 == 5:
         return make_circ_case(rng, seed, i)
     circular = False
@@ -353,7 +355,242 @@ class FlatWorld:
         return gw.key_of(self.desc, *k) if len(k) == 4 else repr(k)
 
 
+# -- three objects: an original and two restored copies ---------------------------------
+# A free zone of the first sheet (N1:Q4) that no generated cell uses: constants
+# and formulas are added there to one object at a time, and values that exist
+# nowhere else (they end in the tag of the side) are fed through it.
+FREE_COLS, FREE_ROWS, FREE_FCOL = (14, 15, 16), (1, 2, 3, 4), 17
+TAG = {'a': 0.125, 'b': 0.375, 'c': 0.625}
+TRIO_OPS = ('calc_x', 'calc_x', 'write_books', 'write_books', 'extend_const',
+            'extend_formula', 'calc', 'to_dict', 'refinish')
+TRIO_METHODS = (('deepcopy', 'dill'), ('dill', 'deepcopy'), ('deepcopy', 'deepcopy'),
+                ('dill', 'dill'))
+
+
+def _const_arrays(desc):
+    """Array formulas whose constant result is smaller than their range (the
+    rest of the range is padding), and readers of the padded cells."""
+    cells = desc['books'][0]['sheets'][0]['cells']
+    full = lambda ref: "%s!%s" % (gw.sheet_id(desc['books'][0]['name'],
+                                              desc['books'][0]['sheets'][0]['name']), ref)
+    for row, text in ((6, '{1,2}'), (7, 'ISERROR({1,2})'), (8, '{"p";"q"}')):
+        cells['N%d' % row] = {'f': ['raw', text, text], 'arr': [14, row, 16, row]}
+        cells['Q%d' % row] = {'f': ['raw', 'COUNT(N%d:P%d)+COUNTIF(N%d:P%d,TRUE)' % (
+            row, row, row, row), 'COUNT(%s)+COUNTIF(%s,TRUE)' % (
+            full('N%d:P%d' % (row, row)), full('N%d:P%d' % (row, row)))]}
+
+
+def make_trio_case(rng, seed, i):
+    desc = gw.gen(rng)
+    if i % 2:
+        _sparsify(rng, desc)
+    _const_arrays(desc)
+    if not wbrun.formula_cells(desc):
+        return None
+    sid = gw.sheet_id(desc['books'][0]['name'], desc['books'][0]['sheets'][0]['name'])
+    hist, n, copy_at = [], rng.randint(7, 12), rng.choice((0, 0, 1, 2))
+    for j in range(n):
+        side = 'a' if j < copy_at else rng.choice('abbcc')
+        op = rng.choice(TRIO_OPS)
+        arg = None
+        if op == 'calc_x':
+            free = [[rng.choice(FREE_COLS), rng.choice(FREE_ROWS), 1000.0 + j + TAG[side]]]
+            arg = {'X': gen_args(rng, desc), 'free': free}
+        elif op == 'extend_const':
+            arg = [rng.choice(FREE_COLS), rng.choice(FREE_ROWS[:3]), 50.0 + j + TAG[side]]
+        elif op == 'extend_formula':
+            c1, c2 = sorted((rng.choice(FREE_COLS), rng.choice(FREE_COLS)))
+            r1, r2 = sorted((rng.choice(FREE_ROWS), rng.choice(FREE_ROWS)))
+            arg = [FREE_FCOL, rng.choice(FREE_ROWS), '=SUM(%s!%s%d:%s%d)' % (
+                sid, gw.col_name(c1), r1, gw.col_name(c2), r2)]
+        hist.append([side, op, arg])
+    return {'kind': 'trio', 'id': '%s/%s' % (seed, i), 'desc': desc, 'object': 'model',
+            'methods': list(TRIO_METHODS[(i // 7) % 4]), 'copy_at': copy_at,
+            'history': hist, 'path': 'dict'}
+
+
+def _free_keys():
+    return [(0, 0, c, r) for c in FREE_COLS + (FREE_FCOL,) for r in FREE_ROWS]
+
+
+def _written(v):
+    """What ExcelModel.write stores for a solved value."""
+    import schedula as sh
+    import numpy as np
+    from formulas.tokens.operand import XlError
+    if v is sh.EMPTY or (isinstance(v, str) and not v):
+        return None
+    if isinstance(v, np.generic):
+        v = v.item()
+    elif isinstance(v, XlError):
+        v = str(v)
+    return v
+
+
+def _solution_values(m, into):
+    """(BOOK, SHEET, column, row) -> set of reprs of the values the object's own
+    solution holds for that cell."""
+    import numpy as np
+    from formulas.ranges import Ranges
+    import schedula as sh
+    for k, r in m.dsp.solution.items():
+        if isinstance(k, sh.Token):
+            continue
+        if not isinstance(r, Ranges):
+            try:
+                r = Ranges().push(k, r)
+            except Exception:
+                continue
+        if len(r.ranges) != 1:
+            continue
+        rg = r.ranges[0]
+        try:
+            sid, c1, r1, c2, r2 = wbrun.rect_of(rg)
+            vals = np.asarray(r.value, object)
+        except Exception:
+            continue
+        if vals.ndim != 2 or (c2 - c1 + 1) * (r2 - r1 + 1) > 4096:
+            continue
+        for (y, x), v in np.ndenumerate(vals):
+            w = _written(v)
+            into.setdefault((sid.upper(), c1 + x, r1 + y), set()).add(
+                '%s:%r' % (type(w).__name__, w))
+    return into
+
+
+def _books_cells(m):
+    from formulas.excel import BOOK
+    out = {}
+    for fpath, d in m.books.items():
+        if BOOK not in d:
+            continue
+        for ws in d[BOOK].worksheets:
+            sid = gw.sheet_id(fpath.split('/')[-1], ws.title).upper()
+            for row in ws.iter_rows():
+                for c in row:
+                    if c.value is not None:
+                        out[(sid, c.column, c.row)] = '%s:%r' % (
+                            type(c.value).__name__, c.value)
+    return out
+
+
+def _trio_apply(m, desc, op, arg):
+    """Performs op on m; returns a canonical observation or None."""
+    if op == 'calc_x':
+        inputs = to_inputs(desc, arg['X'])
+        for c, r, v in arg['free']:
+            inputs[gw.key_of(desc, 0, 0, c, r)] = v
+        sol = m.calculate(inputs=inputs)
+    elif op == 'calc':
+        sol = m.calculate()
+    elif op == 'extend_const' or op == 'extend_formula':
+        m.from_dict({gw.key_of(desc, 0, 0, arg[0], arg[1]): arg[2]})
+        m.finish()
+        return None
+    elif op == 'refinish':
+        m.finish()
+        return None
+    elif op == 'to_dict':
+        return _observe_model(m, desc, 'to_dict', None)
+    else:
+        raise ValueError(op)
+    obs = wbrun.solution_cells(desc, sol)
+    obs.update(wbrun.solution_cells(desc, sol, _free_keys()))
+    return obs
+
+
+def check_trio(case, ctx):
+    desc, (m1, m2) = case['desc'], case['methods']
+    what = 'trio:%s+%s' % (m1, m2)
+    try:
+        objs = {'a': wbrun.load_dict(desc)}
+    except Exception as ex:
+        ctx.count('load-raised')
+        ctx.see('load-raised', '%s: %s' % (type(ex).__name__, str(ex)[:80]))
+        return
+    struct = {'a': []}                      # structural operations of each object
+    prov = {'a': {k: {v} for k, v in _books_cells(objs['a']).items()}}
+    seen = {'a': 0, 'b': 0, 'c': 0}
+    for step, (side, op, arg) in enumerate(case['history']):
+        w = {'case': case, 'step': step, 'side': side, 'operation': op,
+             'history_so_far': [[s_, o_] for s_, o_, _ in case['history'][:step + 1]]}
+        if 'b' not in objs and step >= case['copy_at']:
+            try:
+                objs['b'] = _copy(objs['a'], m1)
+                objs['c'] = _copy(objs['b'], m2)       # a copy of a copy
+            except Exception as ex:
+                ctx.violation('copy-raised:%s:%s' % (what, type(ex).__name__), dict(
+                    w, observed='%s: %s' % (type(ex).__name__, str(ex)[:200]),
+                    accepted=['a copy']))
+                return
+            ctx.count('copies.' + what)
+            for s_ in 'bc':
+                struct[s_] = list(struct['a'])
+                prov[s_] = {k: set(v) for k, v in prov['a'].items()}
+        if side not in objs:
+            side = w['side'] = 'a'
+        m = objs[side]
+        ctx.see('trio-bigram', '%s%s' % (side, op))
+        if op == 'write_books':
+            try:
+                _solution_values(m, prov[side])
+                m.write(m.books)
+                got = _books_cells(m)
+            except Exception as ex:
+                ctx.count('operation-raised')
+                ctx.see('operation-raised', '%s %s: %s' % (op, type(ex).__name__, str(ex)[:60]))
+                continue
+            ctx.count('op.write_books')
+            ctx.count('monitor.books-provenance')
+            ctx.count('monitor.books-cells-traced', len(got))
+            seen[side] += 1
+            bad = sorted(k for k, v in got.items() if v not in prov[side].get(k, ()))
+            if bad:
+                k = bad[0]
+                ctx.violation('books-hold-foreign-value:%s' % what, dict(
+                    w, cell='%s!%s%d' % (k[0], gw.col_name(k[1]), k[2]), n_cells=len(bad),
+                    observed=got[k], accepted=sorted(prov[side].get(k, ())) or [
+                        'nothing: no calculation of this object produced a value there']))
+                return
+            continue
+        try:
+            got = _trio_apply(m, desc, op, arg)
+            fresh = wbrun.load_dict(desc)
+            for o_, a_ in struct[side]:
+                _trio_apply(fresh, desc, o_, a_)
+            want = _trio_apply(fresh, desc, op, arg)
+        except Exception as ex:
+            ctx.count('operation-raised')
+            ctx.see('operation-raised', '%s %s: %s' % (op, type(ex).__name__, str(ex)[:60]))
+            return
+        ctx.count('op.' + op)
+        if op in ('extend_const', 'extend_formula', 'refinish'):
+            struct[side].append((op, arg))
+            continue
+        seen[side] += 1
+        ctx.count('monitor.compared-with-fresh')
+        ctx.count('monitor.trio-side-%s' % side)
+        diff = [k for k in want if not xl.same(got.get(k, ('missing',)), want[k], rel=1e-12)]
+        diff += [k for k in got if k not in want]
+        if diff:
+            k = diff[0]
+            ctx.violation('differs-from-fresh:%s:%s' % (what, op), dict(
+                w, cell=gw.key_of(desc, *k) if len(k) == 4 else repr(k), n_cells=len(diff),
+                own_structural_operations=[list(x) for x in struct[side]],
+                observed=xl.show(got.get(k, ('missing',))),
+                accepted=[xl.show(want.get(k, ('missing',))) +
+                          ' (fresh object, same structural operations, same operation)']))
+            return
+    if sum(1 for v in seen.values() if v) >= 2:
+        ctx.case((case['id'], [[s_, o_] for s_, o_, _ in case['history']]))
+        ctx.count('monitor.trio-histories')
+    else:
+        ctx.case((case['id'], 'one-sided'), nontrivial=False)
+
+
 def check_case(case, ctx):
+    if case.get('kind') == 'trio':
+        return check_trio(case, ctx)
     desc = case['desc']
     world = CircWorld(case) if case.get('circular') else FlatWorld(case)
     what = '%s:%s%s' % (case['object'], case['method'],
@@ -475,10 +712,10 @@ def run(spec, ctx):
         if c is None:
             continue
         case = c
-        ctx.open_case({'kind': 'pair', 'id': case['id']})
+        ctx.open_case({'kind': case.get('kind', 'pair'), 'id': case['id']})
         check_case(case, ctx)
     if case:
-        ctx.sample({'object': case['object'], 'method': case['method'],
+        ctx.sample({'object': case['object'], 'method': case.get('method') or case['methods'],
                     'copy_at': case['copy_at'],
                     'history': [[s_, o_] for s_, o_, _ in case['history']]})
 
@@ -492,7 +729,11 @@ def finalize(agg, tier):
                      ('op.call', 100), ('op.calc_x', 100),
                      ('copies.model:deepcopy:circular', 3), ('copies.model:dill:circular', 3),
                      ('copies.function:deepcopy:circular', 1),
-                     ('copies.function:dill:circular', 1)):
+                     ('copies.function:dill:circular', 1),
+                     ('monitor.trio-histories', 12), ('monitor.books-provenance', 20),
+                     ('monitor.books-cells-traced', 300), ('monitor.trio-side-b', 12),
+                     ('monitor.trio-side-c', 12), ('op.extend_const', 8),
+                     ('op.extend_formula', 8)):
         if c.get(k, 0) < floor:
             inc.append('monitor %s saw %d events (< %d)' % (k, c.get(k, 0), floor))
     return {'inconclusive': inc, 'coverage': {
